@@ -253,7 +253,7 @@ func observeProg(c progCase) *ProgObs {
 		prev = cur
 	}
 	if tr.Closed {
-		for _, n := range []int{-1, total + 3} {
+		for _, n := range []int{-1, -2, -7, -1 << 40, total + 3} { // every negative n means "all"
 			got := micro.VerifTakeStream(n, build(c.G, env)(st0))
 			if len(got) != total {
 				o.Notes = append(o.Notes, fmt.Sprintf("take(%d) returned %d of the %d answers of a finite search", n, len(got), total))
